@@ -929,3 +929,72 @@ def to_file_dispatch(u: Unit):
             u.oblige(p, f"write.to_file_dispatch[{fmt}].its_own_writer_with_the_given_arguments", goal, {"called": str([c[0] for c in calls])}, WRITE_REPLAY)
             u.oblige(p, f"write.to_file_dispatch[{fmt}].returns_the_writers_path", bool(ok and isinstance(p.value, VOpaque) and p.value.kind == "path" and "/written/by/" + table[fmt] in str(p.value.info.get("text"))), {}, WRITE_REPLAY)
         u.cover(f"write.to_file_dispatch.cover[{fmt}]", ps, lambda p: True)
+
+
+# ---- the report of a sequential observation: every file name under the label of ITS format -------------------------------------------------
+REPORT_REPLAY = lambda w: {"code": """
+from pyxel.outputs.outputs import _dict_to_datatree
+VIOLATED, DETAIL = False, 'every reported file name is listed under the bucket and the format it was written in'
+for files in ({'detector.image.array': {'npy': 'img_1.npy', 'fits': 'img_1.fits'}, 'detector.pixel.array': {'txt': 'pix_1.txt', 'fits': 'pix_1.fits', 'npy': 'pix_1.npy'}},
+              {'detector.signal.array': {'fits': 's.fits', 'npy': 's.npy'}}, {'detector.image.array': {'png': 'i.png'}}):
+    dt = _dict_to_datatree(files)
+    for bucket, per_format in files.items():
+        name = bucket.removeprefix('detector.').removesuffix('.array')
+        da = dt[f'/{name}/filename']
+        got = {str(f): str(da.sel(data_format=f).values) for f in da['data_format'].values}
+        if got != per_format:
+            VIOLATED, DETAIL = True, f'{bucket}: written {per_format}, reported {got}'; break
+    if VIOLATED: break
+""", "expect": "_dict_to_datatree keeps each (format, file name) pair together", "function": "pyxel/outputs/outputs.py::_dict_to_datatree"}
+
+
+@unit("C19", "report.labels")
+def report_labels(u: Unit):
+    """_dict_to_datatree ({bucket: {format: file name}} -> the /output node of a sequential observation; two buckets with two formats each,
+    format names and file names symbolic, in any order): every DataArray handed to xarray pairs each file name with the label of ITS
+    format -- the (label, file name) pairs over all arrays of a bucket are exactly the items of that bucket's dictionary."""
+    fi = u.fn(f"{OO}::_dict_to_datatree")
+    cfg = mk_cfg()
+    hold = {}
+
+    def setup(ex):
+        st = ex.st
+        buckets = []
+        for b in ("detector.image.array", "detector.pixel.array"):
+            fmts = [VStr(z3.String(f"{b}_format{i}")) for i in range(2)]
+            names = [VStr(z3.String(f"{b}_file{i}")) for i in range(2)]
+            st.assume(z3.And(fmts[0].v != fmts[1].v, names[0].v != names[1].v))
+            buckets.append((b, fmts, names))
+        hold["buckets"] = buckets
+        d = st.alloc(HDict([(VStr(b), st.alloc(HDict(list(zip(fmts, names))))) for b, fmts, names in buckets]))
+        return [], {"all_filenames": d}
+    ps = u.paths(fi, setup, cfg, label="_dict_to_datatree")
+    for p in ps:
+        if p.kind != "return":
+            u.oblige(p, "report.labels.no_raise", False, {"exc": p.exc_name()}, REPORT_REPLAY)
+            continue
+        pairs = []
+        ok_shape = True
+        for e in p.st.events:
+            if e[0] == "lib_call" and e[1] == "xarray.DataArray":
+                data = p.ex.try_list(e[2][0]) if e[2] else (p.ex.try_list(e[3].get("data")) if e[3].get("data") is not None else None)
+                coords = p.ex.try_dict(e[3].get("coords")) if e[3].get("coords") is not None else None
+                labels = None
+                for k, v in (coords or []):
+                    if isinstance(k, VStr) and k.v == "data_format":
+                        labels = p.ex.try_list(v)
+                if data is None or labels is None or len(data) != len(labels):
+                    ok_shape = False
+                    continue
+                pairs += list(zip(labels, data))
+        want = [(f, n) for _, fmts, names in hold["buckets"] for f, n in zip(fmts, names)]
+        if not ok_shape or len(pairs) != len(want):
+            u.undecide("report.labels.each_file_under_its_own_format", fi.qualname, f"unrecognised way of building the report ({len(pairs)} labelled entries found for {len(want)} files)")
+            continue
+        # every reported pair is one of the written pairs (labels are pairwise different inside a bucket, so this is a bijection)
+        goal = z3.And(*[z3.Or(*[z3.And(z_str(l.v) == z_str(f.v), z_str(d.v) == z_str(n.v)) for f, n in want]) if isinstance(l, VStr) and isinstance(d, VStr) else z3.BoolVal(False) for l, d in pairs])
+        u.oblige(p, "report.labels.each_file_under_its_own_format", goal, {}, REPORT_REPLAY)
+    u.cover("report.labels.cover", ps, lambda p: p.kind == "return")
+
+
+STANDIN = dict(globals().get("STANDIN", {}), **{r"report\.labels": REPORT_REPLAY})
